@@ -8,23 +8,23 @@ from vlib import log, OUT, VERIF
 
 PROPS = {
     # id: (stages, human summary of the deciding method)
-    "C01": (["hist_random"], "TLC trace validation of SameItemsSameView / SyncReaches on recorded histories"),
-    "C02": (["hist_random"], "TLC trace validation of AppliedComplete / RefreshApplies / RefreshEqualsReload"),
-    "C03": (["hist_random"], "TLC trace validation of Durable (fresh replica after every commit)"),
-    "C04": (["hist_random"], "TLC trace validation of Exact / Weak / Idempotent / EmptyCommit"),
-    "C05": (["hist_random", "fn_revtree", "fn_revision"], "TLC trace validation of WinnerRule / TreeFromBlocks on histories; every small tree shape under every insertion order and the comparison matrix against the spec's rule"),
-    "C06": (["hist_random", "fn_merge", "mc_merge"], "TLC: transcription of merge_arrays satisfies the C06 relation on the bound; the real merge_arrays checked against the relation on every pair; ArrayView on histories"),
-    "C07": (["hist_random"], "TLC trace validation of Resolve"),
-    "C08": (["hist_random"], "watchdog + TLC trace validation of Returns"),
-    "C09": (["hist_random"], "crash / write-failure enumeration + TLC trace validation"),
-    "C10": (["hist_random"], "damage enumeration (flip / truncate / empty / delete / inject) + TLC trace validation of ErrorOrIntact / NoAlteredContent"),
-    "C11": (["hist_random"], "TLC trace validation of Names / AppendOnly / SameBytes"),
-    "C12": (["hist_random"], "TLC trace validation of NoDocChange"),
-    "C13": (["hist_random"], "TLC trace validation of Graph / Commit / ReadBack"),
-    "C14": (["hist_random"], "TLC trace validation of Travel / Retrievable"),
-    "C15": (["hist_random"], "TLC trace validation of Unstage / ExportReplay / Guards / CommitCleans"),
-    "C16": (["hist_random", "fn_diff"], "TLC trace validation of Reconstructs / StoredEqualsSubmitted"),
-    "C19": (["hist_random", "fn_revision"], "TLC trace validation of Canonical / LeafOrderTotal"),
+    "C01": (["hist_random", "mc_quick"], "TLC trace validation of SameItemsSameView / SyncReaches on recorded histories"),
+    "C02": (["hist_random", "mc_quick"], "TLC trace validation of AppliedComplete / RefreshApplies / RefreshEqualsReload"),
+    "C03": (["hist_random", "mc_quick"], "TLC trace validation of Durable (fresh replica after every commit)"),
+    "C04": (["hist_random", "mc_quick"], "TLC trace validation of Exact / Weak / Idempotent / EmptyCommit"),
+    "C05": (["hist_random", "mc_quick", "fn_revtree", "fn_revision"], "TLC trace validation of WinnerRule / TreeFromBlocks on histories; every small tree shape under every insertion order and the comparison matrix against the spec's rule"),
+    "C06": (["hist_random", "mc_quick", "fn_merge", "mc_merge"], "TLC: transcription of merge_arrays satisfies the C06 relation on the bound; the real merge_arrays checked against the relation on every pair; ArrayView on histories"),
+    "C07": (["hist_random", "mc_quick"], "TLC trace validation of Resolve"),
+    "C08": (["hist_random", "mc_quick"], "watchdog + TLC trace validation of Returns"),
+    "C09": (["hist_random", "mc_quick"], "crash / write-failure enumeration + TLC trace validation"),
+    "C10": (["hist_random", "mc_quick"], "damage enumeration (flip / truncate / empty / delete / inject) + TLC trace validation of ErrorOrIntact / NoAlteredContent"),
+    "C11": (["hist_random", "mc_quick"], "TLC trace validation of Names / AppendOnly / SameBytes"),
+    "C12": (["hist_random", "mc_quick"], "TLC trace validation of NoDocChange"),
+    "C13": (["hist_random", "mc_quick"], "TLC trace validation of Graph / Commit / ReadBack"),
+    "C14": (["hist_random", "mc_quick"], "TLC trace validation of Travel / Retrievable"),
+    "C15": (["hist_random", "mc_quick"], "TLC trace validation of Unstage / ExportReplay / Guards / CommitCleans"),
+    "C16": (["hist_random", "mc_quick", "fn_diff"], "TLC trace validation of Reconstructs / StoredEqualsSubmitted"),
+    "C19": (["hist_random", "mc_quick", "fn_revision"], "TLC trace validation of Canonical / LeafOrderTotal"),
 }
 
 
@@ -105,6 +105,79 @@ def sample_specs(path, k):
     return out
 
 
+TRYALL = None
+
+
+def tryall_alphabet():
+    """The operation alphabet appended to sampled model states (one implementation test per
+    (state, operation) pair, enabled or not: disabled ones must return an error, not hang or panic)."""
+    docs = [{"v": 1}, {"v": 2, "a\u266d": []}, {"v": 1, "a\u266d": [{"_id": "e1", "v": 1}]},
+            {"v": 1, "a\u266d": [{"_id": "e1", "v": 2}, {"_id": "e2", "v": 1}]},
+            {"v": 2, "a\u266d": [{"_id": "e2", "v": 1}, {"_id": "e1", "v": 1}]}, {"v": 2, "b\u266d": [{"_id": "e1", "v": 1}]}]
+    ops = []
+    for r in (0, 1):
+        for d in docs:
+            ops.append({"op": "update", "r": r, "doc": d, "twice": True})
+        ops += [{"op": "commit", "r": r, "crashenum": True}, {"op": "commit", "r": r, "fail": [1]}, {"op": "commit", "r": r, "fail": [2]},
+                {"op": "meld", "r": r, "s": 1 - r, "crashenum": True}, {"op": "refresh", "r": r}, {"op": "reload", "r": r},
+                {"op": "unstage", "r": r}, {"op": "export_replay", "r": r}, {"op": "snapshot", "r": r}, {"op": "reopen", "r": r},
+                {"op": "sync", "r": r, "s": 1 - r}]
+        for hs in range(3):
+            ops.append({"op": "reload_until", "r": r, "hs": hs})
+        for o in range(3):
+            for leaf in range(3):
+                ops.append({"op": "resolve", "r": r, "o": o, "leaf": leaf})
+        for o in range(4):
+            ops.append({"op": "resolve_any", "r": r, "o": o, "leaf": o})
+    return ops
+
+
+def mc_stage(cfgname, quick_sample, thorough_sample, tryall_quick, tryall_thorough, workers=12):
+    def run(tier, seed, d):
+        import random, sched as schedmod, re
+        os.makedirs(d, exist_ok=True)
+        base = open(os.path.join(vlib.SPEC, "mc", cfgname)).read()
+        cfg = os.path.join(d, "emit.cfg")
+        open(cfg, "w").write(base.replace("INVARIANTS", "INVARIANTS\n  EmitSched", 1))
+        rc, out = vlib.run_tlc(os.path.join(vlib.SPEC, "MeldaMC.tla"), cfg, workers=workers, xmx="12g",
+                               timeout=3000 if tier == "quick" else 14000, queue_deque=False)
+        if "No error has been found" not in out:
+            tail = "\n".join(l for l in out.splitlines() if not l.startswith('<<"SCHED"'))[-3000:]
+            raise vlib.ToolError("model checking of %s did not pass (a model-only result is never a VIOLATION):\n%s" % (cfgname, tail))
+        m = re.search(r"(\d+) states generated, (\d+) distinct states found", out)
+        generated, distinct = int(m.group(1)), int(m.group(2))
+        depth = re.search(r"depth of the complete state graph search is (\d+)", out)
+        scheds = list(schedmod.parse_tlc_output(out))
+        maxi = schedmod.maximal(scheds)
+        rnd = random.Random(seed)
+        rnd.shuffle(maxi)
+        n = quick_sample if tier == "quick" else thorough_sample
+        chosen = maxi[:n]
+        nt = tryall_quick if tier == "quick" else tryall_thorough
+        specs = os.path.join(d, "specs.ndjson")
+        alphabet = tryall_alphabet()
+        nrep = 2
+        mrep = re.search(r"Replica = \{([^}]*)\}", base)
+        if mrep:
+            nrep = len(mrep.group(1).split(","))
+        with open(specs, "w") as f:
+            for i, sc in enumerate(chosen):
+                spec = {"run": i, "replicas": nrep, "pool": [1, 2, 4, 16][i % 4], "ops": schedmod.concretise(sc),
+                        "label": "model:%s" % cfgname, "nasty": False, "floats": False}
+                if i < nt:
+                    spec["tryall"] = alphabet
+                f.write(json.dumps(spec) + "\n")
+        summary = vlib.run_hist(specs, d, timeout_ms=10000 if tier == "quick" else 30000, bundle=12)
+        results = vlib.validate_dir(d)
+        res = collect(results, specs, summary)
+        res["model"] = {"config": cfgname, "states_generated": generated, "distinct_states": distinct,
+                        "depth": int(depth.group(1)) if depth else 0, "schedules": len(scheds), "maximal": len(maxi),
+                        "replayed": len(chosen), "tryall_states": min(nt, len(chosen)), "tryall_ops": len(alphabet)}
+        res["samples"] = [{"model_schedule": schedmod.concretise(sc)} for sc in chosen[:2]]
+        return res
+    return run
+
+
 def fn_stage(which):
     def run(tier, seed, d):
         info = vlib.run_fn(which, d, tier, seed)
@@ -148,7 +221,8 @@ def st_mc_merge(tier, seed, d):
 
 
 STAGES = {"hist_random": st_hist_random, "fn_merge": fn_stage("merge"), "fn_diff": fn_stage("diff"),
-          "fn_revision": fn_stage("revision"), "fn_revtree": fn_stage("revtree"), "mc_merge": st_mc_merge}
+          "fn_revision": fn_stage("revision"), "fn_revtree": fn_stage("revtree"), "mc_merge": st_mc_merge,
+          "mc_quick": mc_stage("MC_quick.cfg", 300, 6000, 24, 400)}
 
 # ---------------------------------------------------------------- known findings
 
@@ -299,18 +373,25 @@ def decide(pid, tier, seed, t0):
         nviol += 1
         path = write_replay(pid, v)
         print("VIOLATION property=%s replay=%s predicate=%s op=%s run=%d step=%d" % (pid, path, v["pred"], v["op"], v["run"], v["i"]))
-    write_evidence(pid, tier, seed, t0, method, counts, events, runs, states, samples, len(unknown), results)
+    models = [r["model"] for r in results.values() if r.get("model")]
+    write_evidence(pid, tier, seed, t0, method, counts, events, runs, states, samples, len(unknown), results, models, len(knownhits))
     sys.stdout.flush()
     return 1 if unknown else 0
 
 
-def write_evidence(pid, tier, seed, t0, method, counts, events, runs, states, samples, nviol, results):
+def write_evidence(pid, tier, seed, t0, method, counts, events, runs, states, samples, nviol, results, models=(), nknown=0):
     os.makedirs(os.path.join(VERIF, "evidence"), exist_ok=True)
     nontrivial = sum(counts.values())
+    mstates = sum(m.get("distinct_states", 0) for m in models)
+    mtrans = sum(m.get("states_generated", 0) for m in models)
     ev = {
         "property_id": pid, "tier": tier, "seed": seed, "level": "model_checking",
         "coverage": {
-            "states": max(states, 1), "transitions": max(events, 1),
+            "states": max(mstates + states, 1), "transitions": max(mtrans + events, 1),
+            "model_runs": list(models),
+            "states_note": "states = distinct states of the TLC model-checking runs listed in model_runs plus one TLC state per "
+                           "validated trace event; transitions = states generated by those runs plus validated events",
+            "known_findings_hit": nknown,
             "traces_validated_against_impl": runs,
             "samples": samples[:5] or [{"note": "no sample"}],
             "evaluations": events,
